@@ -138,3 +138,12 @@ Print Assumptions C11_link_only_documented.
 Theorem C11_displayed_is_documented : forall p i, displayed p i = documented p i.
 Proof. exact displayed_documented. Qed.
 Print Assumptions C11_displayed_is_documented.
+
+(* ---- the state of the Markdown instance ---------------------------------------------------- *)
+(* a sequence of conversions on one MetaMarkdown instance, from any state: each text is rendered in
+   the context given for it -- none for the project file, its summary and author_description and
+   the static pages, whatever entity was converted just before *)
+Theorem C11_context_not_inherited : forall p calls st,
+  md_run p st calls = map (fun c => render p (fst c) (snd c)) calls.
+Proof. exact context_not_inherited. Qed.
+Print Assumptions C11_context_not_inherited.
